@@ -75,7 +75,7 @@ impl Sub for Sem {
     fn run(&self, c: &SemCase, cx: &Ctx) -> CaseResult {
         let mut corpus = build_corpus(&c.corpus)?;
         let ev = Evaluator::new();
-        let bcx = BuildCtx { f: &corpus.f, restrict_slop: cx.known_open("phrase_slop_three_terms_overmatch"), excluded: Default::default() };
+        let bcx = BuildCtx { f: &corpus.f, restrict_slop: cx.known_open("phrase_slop_three_terms_overmatch"), restrict_fuzzy_prefix: cx.known_open("fuzzy_prefix_undermatch"), excluded: Default::default() };
         let reader: tantivy::IndexReader = corpus.index.reader_builder().reload_policy(ReloadPolicy::Manual).try_into().or_fail("reader_open_failed")?;
         let corpus_fp = fp(&c.corpus);
         let n_live = corpus.num_live();
@@ -89,6 +89,7 @@ impl Sub for Sem {
         // sloppy phrases with >= 3 terms as *top-level* queries are kept while the known finding is open, but
         // only the direction both readings agree on is checked (documents within the documented budget match)
         let mut subset_only: Vec<(Q, Box<dyn Query>, BTreeSet<u64>)> = vec![];
+        let mut superset_only: Vec<(Q, Box<dyn Query>, BTreeSet<u64>)> = vec![];
         for q in &c.queries {
             if let (true, Q::Phrase { words, slop }) = (bcx.restrict_slop, q) {
                 let mut distinct = words.clone();
@@ -97,6 +98,15 @@ impl Sub for Sem {
                 if *slop > 0 && words.len() >= 3 && distinct.len() == words.len() {
                     let expected: BTreeSet<u64> = corpus.live().filter(|(_, d)| ev.matches(q, d)).map(|(u, _)| *u).collect();
                     subset_only.push((q.clone(), build_query(q, &corpus.f)?, expected));
+                    continue;
+                }
+            }
+            if let (true, Q::Fuzzy { prefix: true, distance, .. }) = (bcx.restrict_fuzzy_prefix, q) {
+                if *distance > 0 && !ev.ambiguous(q) {
+                    // top-level prefix-fuzzy leaf while the known finding is open: only "no document outside the
+                    // documented set" is checked
+                    let expected: BTreeSet<u64> = corpus.live().filter(|(_, d)| ev.matches(q, d)).map(|(u, _)| *u).collect();
+                    superset_only.push((q.clone(), build_query(q, &corpus.f)?, expected));
                     continue;
                 }
             }
@@ -185,6 +195,14 @@ impl Sub for Sem {
                 ensure!(missing.is_empty(), "phrase_slop_three_terms_undermatch", "query {q:?}: documents within the documented slop budget do not match: {missing:?}");
                 cx.label("leaf:phrase_slop3_subset_check");
             }
+            for (q, tq, expected) in &superset_only {
+                cx.evals(1);
+                cx.excluded("fuzzy_prefix_with_distance:undermatch_direction_not_checked", 1);
+                let got: BTreeSet<u64> = searcher.search(&**tq, &DocSetCollector).or_fail("search_failed")?.into_iter().map(|a| um.uid(a)).collect();
+                let extra: Vec<&u64> = got.difference(expected).take(8).collect();
+                ensure!(extra.is_empty(), "fuzzy_prefix_overmatch", "query {q:?}: documents without any term that has a prefix within the distance match: {extra:?}");
+                cx.label("leaf:fuzzy_prefix_superset_check");
+            }
         }
         cx.sample(|| json!({"sub":"sem","docs":corpus.docs.len(),"segments":corpus.num_segments,"deleted":corpus.deleted.len(),"first_doc":corpus.docs.first().map(|d| &d.1),"queries":c.queries.iter().take(3).collect::<Vec<_>>()}));
         Ok(())
@@ -218,6 +236,7 @@ fn classify(q: &Q, extra: bool, missing: bool) -> String {
         Q::Exists(_) | Q::ExistsTag => "exists",
         Q::All => "all",
         Q::Empty => "empty",
+        Q::Fuzzy { prefix: true, distance, .. } if *distance > 0 => return format!("fuzzy_prefix_{dir}"),
         Q::Fuzzy { .. } => "fuzzy",
         Q::Regex(_) => "regex",
         Q::Boost(..) => "boost",
